@@ -78,7 +78,15 @@ func c14ChunkHTTP(c *fw.Case) {
 	chunk := desync.NewChunk(data)
 	id := chunk.ID()
 	ops := []string{"GET", "HEAD", "PUT"}
-	c.Class(fmt.Sprintf("chunk %s unc=%v upUnc=%v upSkip=%v cliSkip=%v r=%d f=%d final=%s", ops[op], unc, upUnc, upSkip, cliSkip, retry, f, final))
+	// the upstream object may be damaged at rest (emptied / replaced by garbage): the server must not answer 200 for it
+	damage := 0
+	if op == 0 && present {
+		damage = []int{0, 0, 0, 1, 2}[c.Draw(5, "upstream.damage")]
+	}
+	if damage != 0 {
+		script, f, final = []respScript{{"ok"}}, 0, "ok"
+	}
+	c.Class(fmt.Sprintf("chunk %s unc=%v upUnc=%v upSkip=%v cliSkip=%v r=%d f=%d final=%s damage=%d", ops[op], unc, upUnc, upSkip, cliSkip, retry, f, final, damage))
 	c.Note("chunk %s client/server uncompressed=%v upstream uncompressed=%v upstream skipverify=%v client skipverify=%v retry=%d base=%v present=%v script=%v dupPUT=%v", ops[op], unc, upUnc, upSkip, cliSkip, retry, base, present, script, dup)
 	dir := filepath.Join(c.Dir(), "up")
 	os.MkdirAll(dir, 0755)
@@ -106,6 +114,17 @@ func c14ChunkHTTP(c *fw.Case) {
 				if err := up.StoreChunk(chunk); err != nil {
 					c.HarnessError("%v", err)
 					return
+				}
+				if damage != 0 {
+					junk := []byte{}
+					if damage == 2 {
+						junk = make([]byte, 1+r.IntN(200))
+						for i := range junk {
+							junk[i] = byte(1 + r.IntN(255))
+						}
+					}
+					os.WriteFile(chunkFile(dir, id, upUnc), junk, 0644)
+					c.Fault("upstream-object-damaged")
 				}
 			}
 			var conv desync.Converters
@@ -143,6 +162,24 @@ func c14ChunkHTTP(c *fw.Case) {
 		return
 	}
 	site := "chunk-" + ops[op]
+	if damage != 0 {
+		// only the verdict matters here: the server must not answer 200 without an object, a verifying client must
+		// not get wrong data, and the damage is not "missing". (With verification disabled on every hop, garbage may
+		// legitimately pass through unchanged.)
+		if tr.lastStatus == 200 && tr.lastBodyLen == 0 {
+			c.Violate("failure-reported-as-success", site, "upstream object damaged (kind %d, upstream skipverify=%v): the chunk server answered 200 with an empty body; client result err=%v", damage, upSkip, gotErr)
+		} else if gotErr == nil && !cliSkip {
+			if b, derr := gotChunk.Data(); derr != nil || !bytes.Equal(b, data) {
+				c.Violate("data-altered", site, "upstream object damaged: a verifying client got no error and %d wrong bytes (%v)", len(b), derr)
+			}
+		} else if isMissing(gotErr) {
+			c.Violate("failure-reported-as-missing", site, "upstream object damaged: reported missing: %v", gotErr)
+		}
+		if !c.Violated() {
+			c.Outcome("ok")
+		}
+		return
+	}
 	attempts := len(tr.requests)
 	wantAttempts := f + 1
 	if wantAttempts > attemptsBudget {
